@@ -18,6 +18,7 @@ RULE = (
     "libcrypto AES-128-CBC (zero IV; key given or sha256(code)[:16] by hashlib) must parse as B | len+2 | 1..16 zero bytes | payload | big-endian "
     "bit-serial CRC-16 in whole blocks with the minimal padding count; decrypt(encrypt(p)) == p (slot blanked with a customer key); damaged/foreign frames must raise. "
     "For foreign-key frames the oracle first computes whether the garbage is by chance acceptable and only then expects an exception. "
+    "Repeated use: a second encryptor with another key is created and used in between; the same object wraps another payload, the same payload again, and a payload of n+-16 bytes directly after n bytes - every frame is the stated function of key and payload alone. "
     "Every generated case is non-trivial and distinct (length x class x key); the length axis is exhaustive."
 )
 ASSUMPTIONS = [
@@ -65,10 +66,30 @@ def check_frame(case, rec):
         key = case["key"]
         e = B2.SoftwareCustKeyEncryptor(key)
         name = "SoftwareCustKeyEncryptor(%s)" % key.hex()
+    # a SECOND encryptor with another key is alive and used in between: nothing derived from a key may be shared between objects
+    key_b = bytes(b ^ 0xA5 for b in key)
+    if case.get("code") is not None:
+        code_b = bytes(b ^ 0x3C for b in case["code"])
+        other, key_b = B2.ConfigSecurityCodeEncryptor(code_b), hashlib.sha256(code_b).digest()[:16]
+    else:
+        other = B2.SoftwareCustKeyEncryptor(key_b)
+    try:
+        ct_b = other.encrypt(payload)
+    except Exception as ex:
+        raise Violation("second encryptor object: encrypt raised %s: %s" % (type(ex).__name__, ex))
     try:
         ct = e.encrypt(payload)
     except Exception as ex:
         raise Violation("%s.encrypt(%d bytes) raised %s: %s" % (name, n, type(ex).__name__, ex))
+    if ossl.cbc_decrypt(key_b, ct_b) != M.container_frame(payload):
+        raise Violation("an encryptor with ANOTHER key, created after %s and used before it, does not wrap under its own key" % name)
+    try:
+        if other.decrypt(ct_b) != payload:
+            raise Violation("the second encryptor object does not unwrap its own frame after %s was used" % name)
+    except Violation:
+        raise
+    except Exception as ex:
+        raise Violation("the second encryptor object cannot unwrap its own frame after %s was used: %s: %s" % (name, type(ex).__name__, ex))
     if len(ct) == 0 or len(ct) % 16:
         raise Violation("%s.encrypt(%d bytes): output length %d is not a whole number of 16-byte blocks" % (name, n, len(ct)))
     frame = ossl.cbc_decrypt(key, ct)
@@ -107,6 +128,16 @@ def check_frame(case, rec):
         ct1b = e.encrypt(payload)
     except Exception as ex:
         raise Violation("%s: second/third encrypt on the same object raised %s: %s" % (name, type(ex).__name__, ex))
+    # ... nor on the LENGTH of the previous payload: directly after a payload of n bytes, one of n+-16 bytes (same length modulo the block size)
+    p3 = payload + bytes(range(16)) if len(payload) + 16 <= 253 else payload[: len(payload) - 16]
+    try:
+        ct3 = e.encrypt(p3)
+        back3 = e.decrypt(ct3)
+    except Exception as ex:
+        raise Violation("%s: wrapping %d bytes right after %d bytes on the same object (or unwrapping the result) raised %s: %s" % (name, len(p3), len(payload), type(ex).__name__, ex))
+    if ossl.cbc_decrypt(key, ct3) != M.container_frame(p3) or back3 != p3:
+        raise Violation("%s: wrapping %d bytes right after %d bytes on the same object gives frame %s.., expected %s.." % (
+            name, len(p3), len(payload), ossl.cbc_decrypt(key, ct3)[:8].hex(), M.container_frame(p3)[:8].hex()))
     if ossl.cbc_decrypt(key, ct2) != M.container_frame(p2):
         raise Violation("%s: SECOND wrap on the same encryptor object does not decrypt (zero IV) to B|len+2|pad|payload|crc: got frame %s" % (name, ossl.cbc_decrypt(key, ct2).hex()))
     if ct1b != ct:
